@@ -2,6 +2,7 @@ package checks
 
 import (
 	"fmt"
+	"io"
 	"net"
 	"os"
 	"path/filepath"
@@ -23,7 +24,7 @@ import (
 func init() {
 	ev.Register(&ev.Spec{
 		ID: "C19", Level: "exploration",
-		Rule:    "paged listings (next Offset = Offset of the last entry received) of real localfs temp directories, staticfs and composefs (flat, with localfs/staticfs mounts, nested WithDir, a staticfs directory mounted in a composefs and listed through the mount, and a composefs whose localfs files and mounted directories were replaced - new inodes - after it was built), called on the File directly (entry counts) and through client+server (byte counts, several msize values; the listing fid has one of nine histories behind it: fresh, listed before, restarted after one page, page counts varying, a second fid listing the same directory in alternation, and for localfs the directory or its ancestor renamed before or in the middle of the listing); the multiset of names is compared with ground truth and every entry's QID/type with Walk+GetAttr. Also: a directory below a fresh composefs mount listed for the first time by 4 connections at once (the mount's QID mapper sees every file for the first time). Non-trivial: the listing needed >= 2 pages; distinct by (fs, dir size, name class, count class, route).",
+		Rule:    "paged listings (next Offset = Offset of the last entry received) of real localfs temp directories, staticfs and composefs (flat, with localfs/staticfs mounts, nested WithDir, a staticfs directory mounted in a composefs and listed through the mount, a composefs whose localfs files and mounted directories were replaced - new inodes - after it was built, and a backend that reports the end of a directory together with its last entries (io.EOF), alone and mounted in a composefs), called on the File directly (entry counts) and through client+server (byte counts, several msize values; the listing fid has one of nine histories behind it: fresh, listed before, restarted after one page, page counts varying, a second fid listing the same directory in alternation, and for localfs the directory or its ancestor renamed before or in the middle of the listing); the multiset of names is compared with ground truth and every entry's QID/type with Walk+GetAttr. Also: a directory below a fresh composefs mount listed for the first time by 4 connections at once (the mount's QID mapper sees every file for the first time). Non-trivial: the listing needed >= 2 pages; distinct by (fs, dir size, name class, count class, route).",
 		Assume:  []string{"directory contents are not modified while listed (the directory itself or an ancestor may be renamed)", "real temp directories under /verif/.scratch"},
 		Shards:  shards(8, 16),
 		Timeout: timeout(5*time.Minute, 40*time.Minute),
@@ -231,6 +232,63 @@ func c19Replaced(c *ev.Ctx, n, nl int) (*c19fs, error) {
 	return &c19fs{kind: "composefs-replaced", names: names, att: fs, clean: clean}, nil
 }
 
+// eofFile makes a backend report the end of a directory the way an io.Reader
+// may: together with the last entries ("This may return io.EOF").
+type eofFile struct{ p9.File }
+
+func (e eofFile) Walk(names []string) ([]p9.QID, p9.File, error) {
+	q, f, err := e.File.Walk(names)
+	if f != nil {
+		f = eofFile{f}
+	}
+	return q, f, err
+}
+
+func (e eofFile) WalkGetAttr(names []string) ([]p9.QID, p9.File, p9.AttrMask, p9.Attr, error) {
+	q, f, m, a, err := e.File.WalkGetAttr(names)
+	if f != nil {
+		f = eofFile{f}
+	}
+	return q, f, m, a, err
+}
+
+func (e eofFile) Readdir(off uint64, count uint32) (p9.Dirents, error) {
+	d, err := e.File.Readdir(off, count)
+	if err == nil && len(d) > 0 {
+		if more, err2 := e.File.Readdir(d[len(d)-1].Offset, 1); err2 == nil && len(more) == 0 {
+			return d, io.EOF
+		}
+	}
+	return d, err
+}
+
+type eofAttacher struct{ p9.Attacher }
+
+func (a eofAttacher) Attach() (p9.File, error) {
+	f, err := a.Attacher.Attach()
+	if f != nil {
+		f = eofFile{f}
+	}
+	return f, err
+}
+
+// c19EOFMount: such a backend mounted in a composefs and listed through the
+// mount (its QID wrapper sits in between) - and, as a control, on its own.
+func c19EOFMount(n, nl int, mounted bool) (*c19fs, error) {
+	st, err := c19Static(n, nl)
+	if err != nil {
+		return nil, err
+	}
+	if !mounted {
+		return &c19fs{kind: "staticfs-eof", names: st.names, att: eofAttacher{st.att}, clean: func() {}}, nil
+	}
+	fs, err := composefs.New(composefs.WithMount("m", eofAttacher{st.att}), composefs.WithFile("sibling", staticfs.ReadOnlyFile("s")))
+	if err != nil {
+		return nil, err
+	}
+	return &c19fs{kind: "composefs-eof-mount", names: st.names, att: fs, path: []string{"m"}, clean: func() {}}, nil
+}
+
 // c19CompareAll makes c19Compare check every entry's QID instead of a sample.
 var c19CompareAll bool
 
@@ -239,6 +297,14 @@ func c19Page(rd func(off uint64, count uint32) (p9.Dirents, error), count uint32
 	off := uint64(0)
 	for {
 		d, e := rd(off, count)
+		if e == io.EOF {
+			// the end of the directory, possibly with its last entries
+			if len(d) > 0 {
+				pages++
+				ents = append(ents, d...)
+			}
+			return ents, pages, nil
+		}
 		if e != nil {
 			return ents, pages, e
 		}
@@ -342,7 +408,7 @@ func runC19(c *ev.Ctx) {
 			if n > 1000 && nl == 255 {
 				continue
 			}
-			for _, kind := range []string{"localfs", "staticfs", "composefs", "composefs-nested", "composefs-static-mount", "composefs-replaced"} {
+			for _, kind := range []string{"localfs", "staticfs", "composefs", "composefs-nested", "composefs-static-mount", "composefs-replaced", "staticfs-eof", "composefs-eof-mount"} {
 				idx++
 				if !c.Mine(idx) {
 					continue
@@ -363,6 +429,10 @@ func runC19(c *ev.Ctx) {
 					f, err = c19StaticMount(n, nl)
 				case "composefs-replaced":
 					f, err = c19Replaced(c, n, nl)
+				case "staticfs-eof":
+					f, err = c19EOFMount(n, nl, false)
+				case "composefs-eof-mount":
+					f, err = c19EOFMount(n, nl, true)
 				default:
 					f, err = c19Compose(c, n, nl, true)
 				}
